@@ -468,7 +468,12 @@ qb_log_target_format(int32_t target,
 static size_t
 my_strlcpy(char *dest, const char * src, size_t maxlen)
 {
-	size_t rc = strlcpy(dest, src, maxlen);
+	size_t rc;
+
+	if (maxlen == 0) {
+		return 0;
+	}
+	rc = strlcpy(dest, src, maxlen);
 	/* maxlen includes NUL, so -1 */
 	return QB_MIN(rc, maxlen-1);
 }
@@ -669,6 +674,9 @@ reprocess:
 			{
 			char *arg_string;
 			arg_string = va_arg(ap, char *);
+			if (location + 1 > max_len) {
+				return max_len;
+			}
 			if (arg_string == NULL) {
 				location += my_strlcpy(&serialize[location],
 						   "(null)",
